@@ -75,7 +75,9 @@ impl AsyncOverlayFS {
         let separator = path.rfind('/');
         if let Some(index) = separator {
             let parent_path = &path[..index];
-            if self.exists(parent_path).await? {
+            if self.exists(parent_path).await?
+                && self.metadata(parent_path).await?.file_type == VfsFileType::Directory
+            {
                 self.write_path(parent_path)?.create_dir_all().await?;
                 return Ok(());
             }
